@@ -58,6 +58,9 @@ impl SakuraCompiler {
     }
     /// compile to MIDI data
     pub fn compile(&mut self, source: &str) -> Vec<u8> {
+        // every compilation starts from a fresh song (and log), like compile() and compile_to_midi()
+        self.song = song::Song::new();
+        self.log_str.clear();
         if self.debug_level > 0 {
             self.song.debug = true;
         }
